@@ -147,6 +147,14 @@ def canon(c, out):
         return CONV_PREFIX + "...)"
     return out
 
+def has_other(x):
+    """an unsupported Go type anywhere in the []any / map[string]any nesting"""
+    if isinstance(x, str): return False
+    if x and x[0] == "other": return True
+    if x and x[0] in ("slice", "map"):
+        return any(has_other(y[1] if x[0] == "map" and not isinstance(y, str) else y) for y in x[1:])
+    return False
+
 INT_HEADS = {"i64", "int", "uint", "u64", "uptr", "i32", "u8", "i8", "i16", "u16", "u32", "dur"}
 
 def run(rep, br, proofs, rng, tier):
@@ -208,8 +216,10 @@ def run(rep, br, proofs, rng, tier):
                     oracle_fail.append((c, "integer width changed the numeric value"))
             elif c["kind"] == "toobjalt":
                 oracle_fail.append((c, "ToObjectAlt rejected a supported integer width"))
-        elif c["kind"] in ("toobj", "toobjalt") and a[0] == "other":
-            if not out.startswith("(err"): oracle_fail.append((c, "unsupported Go type not reported as error"))
+        elif c["kind"] in ("toobj", "toobjalt") and has_other(a):
+            if not out.startswith("(err"): oracle_fail.append((c, "unsupported Go type (possibly nested) not reported as error"))
+        if "(gonil)" in out:
+            oracle_fail.append((c, "conversion produced a nil Object inside the result"))
     for c, why in oracle_fail[:10]:
         rep.violation({"property": "C20", "kind": "oracle", "why": why, "case": c["line"], "impl": c["impl"], "model": c["model"]})
     if not oracle_fail:
